@@ -91,7 +91,7 @@ fn build_group(tape: &[u8], stats: &mut GenStats, n_variants: usize) -> Option<G
                 if pk < 3 {
                     // the sentinel at one enum leaf: a generated enum takes it as `Other`, the
                     // stand-in for an extern enum refuses it - judged per option set in `compare`
-                    for (gname, pl) in enum_leaf_sentinels(&p, &base.world.schema).into_iter().take(3) {
+                    for (gname, pl) in enum_leaf_sentinels(&p, &base.world.schema, 3) {
                         labels.push(format!("extern-sentinel {} payload#{} op={}", gname, pk, u.op_name));
                         base.case.vectors.push(Vector { unit: ui, kind: "response".into(), name: gname, input: pl });
                     }
